@@ -62,7 +62,7 @@ def subsets(n, with_empty):
 def fam_exh2(quick):
     """n=2, one user row, box rows: exhaustive over the listed value sets."""
     if quick:
-        cs = [(1, 1), (1, -1), (2, 1), (-1, 2), (2, 3)]
+        cs = [(1, 1), (1, -1), (2, 1), (-1, 2)]
         bs = [-2, -1, 1, 2, 4]
         Us = [(1, 1), (2, 3), (3, 3)]
         vals = (-3, -2, -1, 0, 1, 2, 3)
@@ -114,7 +114,7 @@ def fam_fake_binary(quick):
     single non-zero), a genuine x_k <= 1 on the *other* / on a continuous variable; the true bounds are x_j <= U_j,
     U_j in {2,3}.  Every combination of pseudo-row kinds per variable, all three integer subsets."""
     out = []
-    bands = [(1, 3), (2, 3), (1, 2), (3, 2), (1, 1), (3, 1)]
+    bands = [(1, 3), (2, 3), (1, 2), (3, 2)] if quick else [(1, 3), (2, 3), (1, 2), (3, 2), (1, 1), (3, 1)]
     cs = [(1, 1), (2, 1), (-1, 1)] if quick else [(1, 1), (2, 1), (-1, 1), (1, -1), (1, 2)]
     kinds = ("none", "diff", "neg", "true1")
     for (p, q) in bands:
